@@ -14,6 +14,7 @@ const ApiExtNS = "http://a.ml/vocabularies/api-extension#"
 const CustomDomainProps = "http://a.ml/vocabularies/document#customDomainProperties"
 const ExtensionName = "http://a.ml/vocabularies/core#extensionName"
 const NodeNS = "http://ex.org/n/"
+const AmlCoreNS = "http://a.ml/vocabularies/core#"
 
 type Val struct {
 	S *string `json:"s,omitempty"`
@@ -81,6 +82,9 @@ func (p Path) local() string {
 	}
 	if strings.HasPrefix(*p.P, ApiExtNS) {
 		return "apiExt." + strings.TrimPrefix(*p.P, ApiExtNS)
+	}
+	if strings.HasPrefix(*p.P, AmlCoreNS) {
+		return "core." + strings.TrimPrefix(*p.P, AmlCoreNS) // a built-in alias the profile does not declare
 	}
 	return "ex." + strings.TrimPrefix(*p.P, NS)
 }
@@ -455,4 +459,31 @@ func (rv *ReportView) Pairs() []string {
 	}
 	sort.Strings(acc)
 	return acc
+}
+
+// moveToCore rewrites predicate NS+local to the a.ml core namespace everywhere in the graph and the path, so that the profile
+// reaches it through the built-in alias `core`, which it does not declare
+func moveToCore(gr Graph, p *Path, local string) {
+	from, to := NS+local, AmlCoreNS+local
+	for i := range gr {
+		for j := range gr[i].Props {
+			if gr[i].Props[j].Iri == from {
+				gr[i].Props[j].Iri = to
+			}
+		}
+	}
+	var walk func(q *Path)
+	walk = func(q *Path) {
+		if q.P != nil && *q.P == from {
+			t := to
+			q.P = &t
+		}
+		for k := range q.Seq {
+			walk(&q.Seq[k])
+		}
+		for k := range q.Alt {
+			walk(&q.Alt[k])
+		}
+	}
+	walk(p)
 }
